@@ -15,67 +15,10 @@ package main
 
 import (
 	"fmt"
-	"io"
-	"log"
-	"os"
 	"strings"
 
 	"github.com/imroc/req/v3/verifharness/hk"
 )
-
-func main() { hk.Main("C08", runC08, nil) }
-
-func runC08(r *hk.Run) {
-	log.SetOutput(io.Discard)
-	r.Header = "From Coq Require Import List.\nImport ListNotations.\nFrom ReqV Require Import Model.C08Run."
-	r.CaseType = "c08_case"
-	r.CheckFn = "c08_check"
-	r.ShardSize = 60
-	r.Rule = "scenario (stack x fresh/re-used connection x TLS x upload x bodiless/body response x auto/manual body read x transparent retry) x injection kind (cancel, manual context deadline, context.WithTimeout, Client.Timeout, ResponseHeaderTimeout) x event index after which the peer stalls; plus racy injections fired together with an event. Non-trivial: the injection hits a request that is in flight (not before the call, not after the exchange completed). Distinct by (scenario, kind, position, racy)."
-	rng := hk.NewRand(r.Seed)
-	if os.Getenv("C08_ONLY") == "" || os.Getenv("C08_ONLY") == "h1" {
-		genH1(r, rng.Fork())
-	}
-	if os.Getenv("C08_ONLY") == "" || os.Getenv("C08_ONLY") == "retry" {
-		genRetry(r)
-	}
-	if os.Getenv("C08_ONLY") == "" || os.Getenv("C08_ONLY") == "h2" {
-		genH2(r, rng.Fork())
-	}
-}
-
-func genH2(r *hk.Run, rng *hk.Rand) {
-	specs := []h2spec{
-		{Name: "fresh-get"},
-		{Name: "fresh-get-bodiless", Bodiless: true},
-		{Name: "fresh-upload", Upload: true},
-		{Name: "reuse-get", Reuse: true},
-		{Name: "reuse-upload-bodiless", Reuse: true, Upload: true, Bodiless: true},
-	}
-	for _, sp := range specs {
-		steps := h2steps(sp)
-		n := len(steps)
-		recordH2(r, runH2(sp, "none", n, false))
-		for pos := 0; pos <= n; pos++ {
-			kinds := []string{"cancel", "deadline"}
-			if !r.Quick() || (pos+int(r.Seed))%3 == 0 {
-				kinds = append(kinds, "deadline-timer")
-			}
-			if !r.Quick() || (pos+int(r.Seed))%3 == 1 {
-				kinds = append(kinds, "client-timeout")
-			}
-			for _, k := range kinds {
-				recordH2(r, runH2(sp, k, pos, false))
-			}
-		}
-		for pos := 1; pos <= n; pos++ {
-			if len(steps[pos-1].labels) == 0 || (r.Quick() && rng.Intn(3) != 0) {
-				continue
-			}
-			recordH2(r, runH2(sp, "cancel", pos, true))
-		}
-	}
-}
 
 func recordH2(r *hk.Run, o h2obs) {
 	// the oracle is the same as for HTTP/1.1
@@ -146,28 +89,16 @@ func emitH2(o h2obs) string {
 		coqLabels(o.Pre), coqLabels(o.RacyLab), coqLabels(inj), ob)
 }
 
-func genRetry(r *hk.Run) {
-	specs := []retrySpec{
-		{Name: "sleep-after-1", Max: 3, LongWait: true, Attempts: 1, InSleep: true},
-		{Name: "sleep-after-2-unlimited", Max: -1, LongWait: true, Attempts: 2, InSleep: true},
-		{Name: "attempt-2-in-flight", Max: 3, Attempts: 1},
-		{Name: "attempt-3-in-flight-unlimited", Max: -1, Attempts: 2},
-		{Name: "first-attempt-in-flight", Max: 2, Attempts: 0},
+func recordRetry(r *hk.Run, o retryObs) {
+	judgeRetry(r, o)
+	r.Count("retry:" + o.Kind)
+	r.Count("retry:call=" + o.Call)
+	coq := ""
+	if o.Harness == "" && o.Returned {
+		coq = emitRetry(o)
 	}
-	for _, sp := range specs {
-		for _, kind := range []string{"cancel", "deadline"} {
-			o := runRetry(sp, kind)
-			judgeRetry(r, o)
-			r.Count("retry:" + kind)
-			r.Count("retry:call=" + o.Call)
-			coq := ""
-			if o.Harness == "" && o.Returned {
-				coq = emitRetry(o)
-			}
-			r.Add(hk.Case{Coq: coq, Desc: map[string]interface{}{"kind": "retry", "obs": o}},
-				fmt.Sprintf("retry|%s|%s", sp.Name, kind), true)
-		}
-	}
+	r.Add(hk.Case{Coq: coq, Desc: map[string]interface{}{"kind": "retry", "obs": o}},
+		fmt.Sprintf("retry|%s|%s", o.Spec.Name, o.Kind), true)
 }
 
 func emitRetry(o retryObs) string {
@@ -413,67 +344,4 @@ func record(r *hk.Run, o obs) {
 		coq = emitH1(o)
 	}
 	r.Add(hk.Case{Coq: coq, Desc: map[string]interface{}{"kind": o.Stack, "obs": o}}, key, nontrivial)
-}
-
-func genH1(r *hk.Run, rng *hk.Rand) {
-	specs := []h1spec{
-		{Name: "fresh-get"},
-		{Name: "fresh-get-auto", Auto: true},
-		{Name: "fresh-get-bodiless", Bodiless: true},
-		{Name: "fresh-tls-get", TLS: true},
-		{Name: "fresh-upload", Upload: true},
-		{Name: "reuse-get", Reuse: true},
-		{Name: "reuse-upload-bodiless", Reuse: true, Upload: true, Bodiless: true},
-		{Name: "reuse-peerclose-retry", Reuse: true, PeerClose: true},
-		{Name: "fresh-get-hdrtimeout", HdrTimeout: true},
-	}
-	for _, sp := range specs {
-		steps := h1steps(sp)
-		n := len(steps)
-		// baseline: nothing injected, the exchange completes
-		record(r, runH1(sp, "none", n, false))
-		for pos := 0; pos <= n; pos++ {
-			kinds := []string{"cancel", "deadline"}
-			// the wall-clock kinds cost timerDelay each: a rotating subset in the quick tier
-			if !r.Quick() || (pos+int(r.Seed))%3 == 0 {
-				kinds = append(kinds, "deadline-timer")
-			}
-			if !r.Quick() || (pos+int(r.Seed))%3 == 1 {
-				kinds = append(kinds, "client-timeout")
-			}
-			for _, k := range kinds {
-				record(r, runH1(sp, k, pos, false))
-			}
-			// ResponseHeaderTimeout runs only between "request written" and "head complete"
-			if sp.HdrTimeout && pos > 0 && pos < n {
-				lab := strings.Join(steps[pos-1].labels, " ")
-				written := false
-				for i := 0; i < pos; i++ {
-					if strings.Contains(strings.Join(steps[i].labels, " "), "XWrote") && !strings.Contains(strings.Join(steps[i].labels, " "), "XWroteSome") {
-						written = true
-					}
-				}
-				headDone := false
-				for i := 0; i < pos; i++ {
-					if strings.Contains(strings.Join(steps[i].labels, " "), "XHeaders") {
-						headDone = true
-					}
-				}
-				_ = lab
-				if written && !headDone {
-					record(r, runH1(sp, "hdr-timeout", pos, false))
-				}
-			}
-		}
-		// racy: the injection is fired together with a step
-		for pos := 1; pos <= n; pos++ {
-			if len(steps[pos-1].labels) == 0 {
-				continue
-			}
-			if r.Quick() && rng.Intn(3) != 0 {
-				continue
-			}
-			record(r, runH1(sp, "cancel", pos, true))
-		}
-	}
 }
